@@ -161,6 +161,18 @@ def pair_check(ax, case, rec):
                 return
         rec.close("stress", relmax(Pa, Pb, sc), 1e-9)
         rec.close("elasticity", relmax(Aa, Ab, sc), 1e-8)
+        if sva is not None:
+            # several trial deformations within one increment: the SAME state array is handed over again after a larger trial state
+            sa_, sb_ = sva.copy(), svb.copy()
+            I_ = np.eye(3).reshape(3, 3, *([1] * len(batch)))
+            Fbig = I_ + 1.3 * (F - I_)
+            if float(np.linalg.det(np.moveaxis(Fbig, (0, 1), (-2, -1))).min()) > 0.2:
+                a.gradient([Fbig.copy(), sa_])
+                b.gradient([Fbig.copy(), sb_])
+                rec.require("trial-evaluation-leaves-the-caller's-state-array", np.array_equal(sa_, sva) and np.array_equal(sb_, svb))
+                Pa3 = np.array(a.gradient([F.copy(), sa_])[0], float)
+                Pb3 = np.array(b.gradient([F.copy(), sb_])[0], float)
+                rec.close("stress-after-a-trial-evaluation-on-the-same-state-array", relmax(Pa3, Pb3, sc), 1e-9)
         import inspect
 
         if "out" in inspect.signature(a.gradient).parameters:
